@@ -13,7 +13,8 @@ static CC_Stack *S[NSLOT];
 static CC_StackIter it;      static int it_slot = -1;
 static CC_StackZipIter zit;  static int z1 = -1, z2 = -1;
 
-static void shim_reset(void) { for (int i = 0; i < NSLOT; i++) S[i] = NULL; it_slot = z1 = z2 = -1; }
+static int sess_default;   /* the session object was built by cc_stack_new (C library allocator triple) */
+static void shim_reset(void) { for (int i = 0; i < NSLOT; i++) S[i] = NULL; it_slot = z1 = z2 = -1; sess_default = 0; }
 
 static bool pred_even(const void *e) { cb_record((void *)e); return VAL(e) % 2 == 0; }
 static void fn_visit(void *e) { cb_record(e); }
@@ -51,8 +52,10 @@ static void phys(void) {
         if (a->size > a->capacity) o(" WALK=size-gt-capacity");
         if (block_size(a) != sizeof(CC_Array)) o(" WALK=array-struct-block");
         if (block_size(S[k]) != sizeof(CC_Stack)) o(" WALK=stack-struct-block");
-        if (!default_mode && (a->mem_alloc != conf_malloc || a->mem_calloc != conf_calloc || a->mem_free != conf_free ||
-                              S[k]->mem_alloc != conf_malloc || S[k]->mem_calloc != conf_calloc || S[k]->mem_free != conf_free))
+        if (sess_default ? (a->mem_alloc != malloc || a->mem_calloc != calloc || a->mem_free != free ||
+                            S[k]->mem_alloc != malloc || S[k]->mem_calloc != calloc || S[k]->mem_free != free)
+                         : (a->mem_alloc != conf_malloc || a->mem_calloc != conf_calloc || a->mem_free != conf_free ||
+                            S[k]->mem_alloc != conf_malloc || S[k]->mem_calloc != conf_calloc || S[k]->mem_free != conf_free))
             o(" WALK=allocators-not-inherited");
     }
     if (!any) { o("-"); return; }
@@ -82,7 +85,7 @@ static void do_op(Cmd *c) {
         enum cc_stat st;
         shim_reset();
         if (is_op(c, "new")) st = make(c, &S[0]);
-        else { default_mode = 1; st = cc_stack_new(&S[0]); }
+        else { st = cc_stack_new(&S[0]); sess_default = 1; }
         if (st != CC_OK) S[0] = NULL;
         o_stat(st);
         obs_all(); o_sep(); phys(); return;
